@@ -260,15 +260,36 @@ def check(P, R):
     # filter handler siblings
     mf = P.func(f'{FF}:FilterFactory.make_filter')
     sibs = [x for x in P.all_funcs() if x.parent is mf and x.name == 'handler']
-    R.require(len(sibs) == 3, f'make_filter: {len(sibs)} handler variants found (3 on the pinned tree)')
     masks = {d.name for n in mf.cfg.nodes for d in mf.rd.gen.get(n, []) if d.value is not None and isinstance(d.value, ast.Call)
              and dotted(d.value.func) == 're.compile'}
     R.require(masks, 'make_filter: compiled mask variable not found')
+    # a handler may also be an instance of a small callable class of the package built here (`handler = _MaskFilter(mask, f_in)`): its __call__ is the sibling,
+    # and the attribute that __init__ fills from the constructor argument holding the compiled mask is the mask
+    mask_recv = {id(h_): set(masks) for h_ in sibs}
+    n_sites = len(sibs)
+    for st_ in walk_shallow(mf.node):
+        if isinstance(st_, ast.Assign) and isinstance(st_.value, ast.Call) and isinstance(st_.value.func, ast.Name):
+            r_ = P.resolve_name(mf.module, st_.value.func.id)
+            if r_ and r_[0] == 'class' and '__call__' in r_[1].methods and '__init__' in r_[1].methods:
+                init_, call_ = r_[1].methods['__init__'], r_[1].methods['__call__']
+                recv_ = set()
+                for i_, a_ in enumerate(st_.value.args):
+                    if isinstance(a_, ast.Name) and a_.id in masks and i_ + 1 < len(init_.params):
+                        pn_ = init_.params[i_ + 1]
+                        for s2 in walk_shallow(init_.node):
+                            if isinstance(s2, ast.Assign) and isinstance(s2.value, ast.Name) and s2.value.id == pn_:
+                                recv_ |= {dotted(t_) for t_ in s2.targets if dotted(t_)}
+                if recv_:
+                    n_sites += 1
+                    if call_ not in sibs:
+                        sibs.append(call_)
+                        mask_recv[id(call_)] = recv_
+    R.require(n_sites >= 2, f'make_filter: {n_sites} handler variants found (3 on the pinned tree)')
     for i, h in enumerate(sibs):
         hg, hrd = h.cfg, h.rd
         mcalls = [c for c in walk_shallow(h.node) if isinstance(c, ast.Call) and isinstance(c.func, ast.Attribute)
-                  and dotted(c.func.value) in masks]
-        ok = bool(mcalls) and all(c.func.attr == 'match' and len(c.args) == 1 and not c.keywords and src(c.args[0]) == h.params[0] for c in mcalls)
+                  and dotted(c.func.value) in mask_recv[id(h)]]
+        ok = bool(mcalls) and all(c.func.attr == 'match' and len(c.args) == 1 and not c.keywords and src(c.args[0]) == [p_ for p_ in h.params if p_ != 'self'][0] for c in mcalls)
         R.ob('C01.a', h, mcalls[0] if mcalls else h.node, ok, text=f'handler#{i + 1}: mask.match(param)', detail='' if ok else
              ('the mask is not applied with match(<remaining path>) alone: search/fullmatch change what a wildcard consumes, and match(text, pos) is not '
               'match(text[pos:]) - `^`, `\\A` and look-behind see the text before the wildcard, so anchored user filters stop matching'), key_extra=f'h{i}:match')
